@@ -1890,5 +1890,305 @@ theorem dor_bool_andor {f : FileObj} (hf : f.WF) (hk : fileKind f = some (.plain
     simp only [readMap, e1, Bool.not_true, Bool.false_and, Bool.false_eq_true, if_false, DT.isInt, e2, if_true]
     rfl
 
+/-- on-read success with `wmean` means the weight file has the same resolutions and covers every
+    coverage pixel processed (H1 is NECESSARY for the on-read path) -/
+theorem dor_weighted_ok_H1 {f w : FileObj} {ordOut : Nat} {pixels : Option (List Nat)} {a : MapObj}
+    (h : apiDegradeOnRead f ordOut "wmean" pixels (some w) = .ok a) :
+    w.covord = f.covord ∧ w.spord = f.spord ∧
+      ∃ px, dorPixels (fCfg f) f.file pixels = some px ∧
+        ∀ k ∈ px, covered (fCfg f) (readFull w.file) k = true := by
+  rw [apiDegradeOnRead_eq] at h
+  obtain ⟨px, kind, hpx, hco, hcw, _, _, _, hw2, _, _⟩ := dorSpec_weighted_inv h
+  have hso := ((dorW2_false_iff f w).1 hw2).1
+  exact ⟨hco, hso, px, hpx, (all_covered_iff hco hso px).1 hcw⟩
+
+/-- in-memory success with `wmean` means the two maps read have the same valid pixels (H2 is
+    NECESSARY for the reference path) -/
+theorem rtd_weighted_ok_H2 {f w : FileObj} (hf : f.WF) (hfk : f.KindOk) (hw : w.WF)
+    {ordOut : Nat} (hlo : f.covord ≤ ordOut) (hhi : ordOut < f.spord)
+    {pixels : Option (List Nat)} {b : MapObj}
+    (h : apiReadThenDegrade f ordOut "wmean" pixels (some w) = .ok b) :
+    ∃ r wm, apiRead f pixels = .ok r ∧ apiRead w pixels = .ok wm ∧ wm.covord = r.covord ∧
+      wm.spord = r.spord ∧ ∀ p, p < r.npix → r.vc.valid (r.abs p) = wm.vc.valid (wm.abs p) := by
+  obtain ⟨r, wm, hr, hwr, hdeg⟩ := rtd_weighted_inv h
+  obtain ⟨kind, hk, h1, h2, h3, h4, _⟩ := apiRead_ok hr
+  obtain ⟨_, wb, al, bl, arr, hwkind, hso, hco, hal, hbl, hs, _, _⟩ :=
+    degrade_weighted_inv (r := r) (h1 ▸ hlo) (h2 ▸ hhi) hdeg
+  refine ⟨r, wm, hr, hwr, hco, hso, ?_⟩
+  have hrwf : r.WF := WF.apiRead hf hr
+  have hwwf : wm.WF := WF.apiRead hw hwr
+  have hbr : r.vc.valid r.vc.sentinel = false := (hfk kind hk r h3 h4).blankInvalid
+  have hbw : wm.vc.valid wm.vc.sentinel = false := MapObj.blankInvalid_of_plain hwkind
+  have hc : wm.c = r.c := by unfold MapObj.c; rw [hco, hso]
+  have hinvw : Inv r.c wm.vc wm.st := hc ▸ hwwf.2
+  have hal' : validPixels r.c wm.vc wm.st = some al := hc ▸ hal
+  intro p hp
+  have := valid_eq_of_sorted_eq hrwf.2 hbr hinvw hbw hal' hbl hs p hp
+  rw [show wm.abs p = abs r.c wm.vc wm.st p by unfold MapObj.abs; rw [hc]]
+  exact this
+
+theorem coreRest_wmean_plain_flt (m : MapObj) (ordOut : Nat) {b0 : Nat}
+    (hk : m.kind = .plain (.flt b0)) (hfit : cellsFitF64 m.st.sp = true) (w : Option MapObj)
+    (wv : Option (Array Val)) :
+    ∃ r, coreRest m ordOut "wmean" w wv = .ok r ∧
+      r.kind = .plain (if isF64 w = true then .flt 64 else .flt b0) := by
+  unfold coreRest
+  have e2 : (!floatReds.contains "wmean") = false := by decide +kernel
+  simp only [hfit, Bool.not_true, Bool.and_false, Bool.false_eq_true, if_false, hk, DT.isInt,
+    Bool.false_and, e2, beq_self_eq_true, Bool.true_and]
+  exact ⟨_, rfl, rfl⟩
+
+/-- is the file's cell type an integer for the on-read path (booleans are stored as int16) -/
+def intLike (dt : DT) : Bool := dt.isInt || dt == .bool
+
+/-- kind of the map degrade-on-read returns -/
+def dorOutKind (kind : Kind) (red : String) : Kind :=
+  match kind with
+  | .plain dt => if intLike dt && (red == "and" || red == "or") then kind else .plain (auxDT dt)
+  | .recd fs pr => .recd (fs.map auxDT) pr
+  | k => k
+
+/-- sentinel of the map degrade-on-read returns -/
+def dorOutSent (kind : Kind) (sent : Val) (red : String) : Val :=
+  match kind with
+  | .plain dt => if intLike dt && (red == "and" || red == "or") then sent else (auxDT dt).defaultSentinel
+  | .recd fs pr => (auxDT (fs.getD pr (.flt 64))).defaultSentinel
+  | _ => sent
+
+/-- which reductions degrade-on-read accepts for a kind -/
+def dorAccepts (kind : Kind) (red : String) : Bool :=
+  match kind with
+  | .packed => false
+  | .wide _ => red == "and" || red == "or"
+  | .recd _ _ => floatReds.contains red
+  | .plain dt => (intLike dt && (red == "and" || red == "or")) || floatReds.contains red
+
+theorem dorMk_ok {f : FileObj} {ordOut : Nat} {K : Kind} {S : Val} {st : Option (State Val)}
+    {a : MapObj} (h : dorMk f ordOut K S st = .ok a) :
+    a.covord = f.covord ∧ a.spord = ordOut ∧ a.kind = K ∧ a.sent = S := by
+  unfold dorMk at h
+  split at h
+  · cases h; exact ⟨rfl, rfl, rfl, rfl⟩
+  · cases h
+
+theorem intLike_eq (dt0 : DT) :
+    (if (dt0 == DT.bool) = true then DT.int 16 true else dt0).isInt = intLike dt0 := by
+  cases dt0 <;> rfl
+
+theorem dorTail_ok_rules {f : FileObj} {ordOut : Nat} {red : String} {pixels : Option (List Nat)}
+    {wf : Option FileObj} {useW : Bool} {kind : Kind} {a : MapObj}
+    (h : dorTail f ordOut red pixels wf useW kind = .ok a) :
+    a.covord = f.covord ∧ a.spord = ordOut ∧ a.kind = dorOutKind kind red ∧
+      a.sent = dorOutSent kind f.sentinel red ∧ dorAccepts kind red = true ∧
+      ((red == "wmean") = true → useW = true) := by
+  unfold dorTail at h
+  cases kind with
+  | packed => cases h
+  | wide n =>
+    simp only at h
+    split at h
+    · cases h
+    · rename_i hc
+      obtain ⟨h1, h2, h3, h4⟩ := dorMk_ok h
+      refine ⟨h1, h2, h3, h4, ?_, ?_⟩
+      · simp only [dorAccepts]
+        cases ha : (red == "and") <;> cases ho : (red == "or") <;> simp_all [bne]
+      · intro hw
+        have : red = "wmean" := by simpa using hw
+        subst this
+        exact absurd (by decide +kernel) hc
+  | recd fs pr =>
+    simp only at h
+    split at h
+    · cases h
+    · rename_i hfr
+      split at h
+      · cases h
+      · rename_i hwm
+        have hacc : dorAccepts (.recd fs pr) red = true := by simpa [dorAccepts] using hfr
+        have huw : (red == "wmean") = true → useW = true := by
+          intro hw; cases useW <;> simp_all
+        split at h <;>
+          (obtain ⟨h1, h2, h3, h4⟩ := dorMk_ok h
+           exact ⟨h1, h2, h3, h4, hacc, huw⟩)
+  | plain dt0 =>
+    simp only [intLike_eq] at h
+    split at h
+    · rename_i hc
+      obtain ⟨h1, h2, h3, h4⟩ := dorMk_ok h
+      refine ⟨h1, h2, ?_, ?_, ?_, ?_⟩
+      · rw [h3]; simp only [dorOutKind, hc, if_true]; cases dt0 <;> rfl
+      · rw [h4]; simp only [dorOutSent, hc, if_true]
+      · simp only [dorAccepts, hc, Bool.true_or]
+      · intro hw
+        have : red = "wmean" := by simpa using hw
+        subst this
+        rw [show ("wmean" == "and" || "wmean" == "or") = false by decide +kernel, Bool.and_false] at hc
+        cases hc
+    · rename_i hc
+      split at h
+      · cases h
+      · rename_i hfr
+        split at h
+        · cases h
+        · rename_i hwm
+          have hacc : dorAccepts (.plain dt0) red = true := by
+            simp only [dorAccepts, Bool.or_eq_true]; right; simpa using hfr
+          have huw : (red == "wmean") = true → useW = true := by
+            intro hw; cases useW <;> simp_all
+          have e := auxDT_bool_dt dt0
+          split at h <;>
+            (obtain ⟨h1, h2, h3, h4⟩ := dorMk_ok h
+             refine ⟨h1, h2, ?_, ?_, hacc, huw⟩
+             · rw [h3, e]; simp only [dorOutKind, hc, Bool.false_eq_true, if_false]
+             · rw [h4, e]; simp only [dorOutSent, hc, Bool.false_eq_true, if_false])
+
+/-- **what a successful degrade-on-read returns** (kind recovery, accepted reductions, output dtype
+    and sentinel rules): the kind `k` recovered from the header is not bit-packed, accepts the
+    reduction, `nside_coverage ≤ nside_out < nside_sparse`, the result has the file's coverage
+    order, the requested order, kind `dorOutKind k red` (integer / boolean → float64 except under
+    `and`/`or`; float32 stays float32; records field by field) and sentinel `dorOutSent` -/
+theorem dor_ok_rules {f : FileObj} {ordOut : Nat} {red : String} {pixels : Option (List Nat)}
+    {wf : Option FileObj} {a : MapObj} (h : apiDegradeOnRead f ordOut red pixels wf = .ok a) :
+    ∃ kind, fileKind f = some kind ∧ f.bitpack = false ∧ f.covord ≤ ordOut ∧ ordOut < f.spord ∧
+      a.covord = f.covord ∧ a.spord = ordOut ∧ a.kind = dorOutKind kind red ∧
+      a.sent = dorOutSent kind f.sentinel red ∧ dorAccepts kind red = true ∧
+      ((red == "wmean") = true → ∃ w, wf = some w) := by
+  rw [apiDegradeOnRead_eq] at h
+  unfold dorSpec at h
+  split at h
+  · cases h
+  · split at h
+    · cases h
+    · rename_i useW hW
+      split at h
+      · cases h
+      · split at h
+        · cases h
+        · split at h
+          · cases h
+          · split at h
+            · cases h
+            · split at h
+              · cases h
+              · split at h
+                · cases h
+                · rename_i h1 hb _ h4 _ kind hk _
+                  obtain ⟨g1, g2, g3, g4, g5, g6⟩ := dorTail_ok_rules h
+                  refine ⟨kind, hk, by simpa using hb, by omega, by omega, g1, g2, g3, g4, g5, ?_⟩
+                  intro hw
+                  have hu := g6 hw
+                  subst hu
+                  unfold dorW1 at hW
+                  cases wf with
+                  | none => cases hW
+                  | some w => exact ⟨w, rfl⟩
+
+
+/-- kind of the map the in-memory `_degrade` returns -/
+def coreOutKind (kind : Kind) (red : String) (w : Option MapObj) : Kind :=
+  match kind with
+  | .plain dt =>
+    if dt.isInt && (red == "and" || red == "or") then kind
+    else .plain (if red == "wmean" && isF64 w then .flt 64 else auxDT dt)
+  | .recd fs pr => .recd (fs.map auxDT) pr
+  | k => k
+
+/-- which reductions the in-memory `_degrade` accepts for a kind (a BOOLEAN map does not accept
+    `and` / `or`, unlike the on-read path: `dorAccepts`) -/
+def coreAccepts (kind : Kind) (red : String) : Bool :=
+  match kind with
+  | .packed => false
+  | .wide _ => red == "and" || red == "or"
+  | .recd _ _ => floatReds.contains red
+  | .plain dt => (dt.isInt && (red == "and" || red == "or")) || floatReds.contains red
+
+theorem coreRest_ok_rules {m : MapObj} {ordOut : Nat} {red : String} {w : Option MapObj}
+    {wv : Option (Array Val)} {b : MapObj} (h : coreRest m ordOut red w wv = .ok b) :
+    b.covord = m.covord ∧ b.spord = ordOut ∧ b.kind = coreOutKind m.kind red w ∧
+      coreAccepts m.kind red = true := by
+  unfold coreRest at h
+  simp only at h
+  split at h
+  · cases h
+  · split at h
+    · cases h
+    · rename_i n hk
+      split at h
+      · cases h
+      · rename_i hc
+        cases h
+        refine ⟨rfl, rfl, by rw [hk]; rfl, ?_⟩
+        rw [hk]
+        simp only [coreAccepts]
+        cases ha : (red == "and") <;> cases ho : (red == "or") <;> simp_all [bne]
+    · rename_i fs pr hk
+      split at h
+      · cases h
+      · rename_i hfr
+        cases h
+        refine ⟨rfl, rfl, by rw [hk]; rfl, ?_⟩
+        rw [hk]; simpa [coreAccepts] using hfr
+    · rename_i dt hk
+      split at h
+      · rename_i hc
+        cases h
+        refine ⟨rfl, rfl, ?_, ?_⟩
+        · rw [hk]; simp only [coreOutKind, hc, if_true]
+        · rw [hk]; simp only [coreAccepts, hc, Bool.true_or]
+      · rename_i hc
+        split at h
+        · cases h
+        · rename_i hfr
+          cases h
+          refine ⟨rfl, rfl, ?_, ?_⟩
+          · rw [hk]; simp only [coreOutKind, hc, Bool.false_eq_true, if_false]
+          · rw [hk]; simp only [coreAccepts, Bool.or_eq_true]; right; simpa using hfr
+
+/-- **what a successful read-then-degrade returns** (for `nside_coverage ≤ nside_out <
+    nside_sparse`): as `dor_ok_rules`, with the in-memory dtype rule (`coreOutKind`: a float64
+    weight map makes a `wmean` result float64 — F47) and the in-memory acceptance rule
+    (`coreAccepts`: no `and` / `or` on boolean maps) -/
+theorem rtd_ok_rules {f : FileObj} {ordOut : Nat} (hlo : f.covord ≤ ordOut) (hhi : ordOut < f.spord)
+    {red : String} {pixels : Option (List Nat)} {wf : Option FileObj} {b : MapObj}
+    (h : apiReadThenDegrade f ordOut red pixels wf = .ok b) :
+    ∃ kind w', fileKind f = some kind ∧ f.bitpack = false ∧
+      (∀ w, wf = some w → ∃ wm, apiRead w pixels = .ok wm ∧ w' = some wm) ∧ (wf = none → w' = none) ∧
+      b.covord = f.covord ∧ b.spord = ordOut ∧ b.kind = coreOutKind kind red w' ∧
+      coreAccepts kind red = true := by
+  have key : ∀ r w', apiRead f pixels = .ok r → apiDegrade r ordOut red w' = .ok b →
+      ∃ kind, fileKind f = some kind ∧ f.bitpack = false ∧ b.covord = f.covord ∧ b.spord = ordOut ∧
+        b.kind = coreOutKind kind red w' ∧ coreAccepts kind red = true := by
+    intro r w' hr hd
+    obtain ⟨kind, hk, h1, h2, h3, _⟩ := apiRead_ok hr
+    rw [apiDegrade_inrange _ _ _ _ (h1 ▸ hlo) (h2 ▸ hhi)] at hd
+    split at hd
+    · cases hd
+    · rename_i hnp
+      rw [apiDegradeCore_eq] at hd
+      cases hcw : coreWeights r red w' with
+      | error e => rw [hcw] at hd; cases hd
+      | ok wv =>
+        rw [hcw] at hd
+        obtain ⟨g1, g2, g3, g4⟩ := coreRest_ok_rules (show coreRest r ordOut red w' wv = .ok b from hd)
+        rw [h3] at g3 g4 hnp
+        exact ⟨kind, hk, bitpack_false_of_not_packed hk (by simpa using hnp), g1.trans h1, g2, g3, g4⟩
+  cases wf with
+  | none =>
+    rw [apiReadThenDegrade_none] at h
+    cases hr : apiRead f pixels with
+    | error e => rw [hr] at h; cases h
+    | ok r =>
+      rw [hr] at h
+      obtain ⟨kind, a1, a2, a3, a4, a5, a6⟩ := key r none hr h
+      exact ⟨kind, none, a1, a2, (fun w hw => nomatch hw), (fun _ => rfl), a3, a4, a5, a6⟩
+  | some w =>
+    obtain ⟨r, wm, hr, hwr, hd⟩ := rtd_weighted_inv h
+    obtain ⟨kind, a1, a2, a3, a4, a5, a6⟩ := key r (some wm) hr hd
+    refine ⟨kind, some wm, a1, a2, ?_, (fun hn => nomatch hn), a3, a4, a5, a6⟩
+    intro w0 hw0
+    cases hw0
+    exact ⟨wm, hwr, rfl⟩
+
 end ApiDor
 end HS
